@@ -358,12 +358,18 @@ def rule_validation_table(repo, rep):
           fail('options-forwarded', 'refuted', 'the strict validation '
                'receives %s=%r instead of the caller\'s %r (%s)'
                % (k, kw.get(k, '<absent>'), v, tag))
+    formed = (sc['kind'] == 'tuples' and sc['ndim'] == 3) or \
+        (sc['kind'] == 'classic' and sc['ndim'] == 2)
+    if formed and w.pre_calls:
+      fail('preprocessor-not-consulted', 'refuted', 'the preprocessor is '
+           'called although formed data was given (%s)' % tag)
     if sc['kind'] == 'tuples' and sc['y'] is not None and sc['t'] == 2 and \
             w.label_checks == 0:
       fail('pair-labels', 'refuted', 'pair labels are not checked for %s'
            % tag)
   for clause in ('malformed-rejected', 'well-formed-accepted',
-                 'labels-returned', 'options-forwarded', 'pair-labels'):
+                 'labels-returned', 'options-forwarded', 'pair-labels',
+                 'preprocessor-not-consulted'):
     key = '_util.check_input:%s' % clause
     v = clauses.get(clause)
     if v is None:
